@@ -146,6 +146,20 @@ def run(ctx: Ctx):
                    "the writer receives the rendering itself" if okw else
                    f"the writer receives {norm(c.args[0])[:60]}, a selection / transformation of the rendering: rows present in one file "
                    "format are missing or different in the other", key=f"R18.2|{q}|whole")
+    # ---------------------------------------------------------------- R18.7 (cont.) the content generator is built anew for every generation
+    # (a generator kept from the previous run appends header and rows to its old table)
+    gif = repo.func("Report.generate_intermediate_format")
+    from .common import enclosing_ifs as _eifs18
+    builds = [a for a in own_nodes(gif) if isinstance(a, ast.Assign) and norm(a.targets[0]) == "self.content" and isinstance(a.value, ast.Call)]
+    if not builds:
+        raise AnchorMissing("generate_intermediate_format: construction of self.content not found")
+    for a in builds:
+        stale = [norm(i_.test) for (i_, b_) in _eifs18(a, gif.node) if "self.content" in norm(i_.test)]
+        ctx.ob("R18.7", f"{gif.qual}: {norm(a)[:50]} does not depend on the previous content", (gif, a), not stale,
+               "a fresh generator (and table) for every generation" if not stale else
+               f"the generator is rebuilt only under {stale}: a second generation of the same report reuses the old table and appends to it, "
+               "so the formats written by different generate() calls carry different rows",
+               key=key_of("R18.7", gif, a, "fresh content"))
     # ---------------------------------------------------------------- R18.3
     tr = repo.cls("TableReport")
     tab = tr.class_attrs.get("PROPERTIES_BY_ID")
